@@ -332,6 +332,13 @@ impl SearchState {
             self.upper_bound = self.last_probed_mtu - 1;
         }
 
+        if self.upper_bound <= self.lower_bound {
+            // Nothing left between the bounds. Without this, repeated probe losses with a small
+            // `minimum_change` walk the upper bound below the lower one and the search goes on
+            // to probe (and adopt) sizes below the MTU that is already known to work
+            return None;
+        }
+
         let next_mtu = (self.lower_bound as i32 + self.upper_bound as i32) / 2;
 
         // Binary search stopping condition
